@@ -5,12 +5,12 @@ GRAMMAR_DEFAULT = {"max_rules": 5, "min_rules": 2, "modes": ["text", "text", "by
 CHECKS = {
     "C20": {
         "sim": "protosim",
-        "quick": {"runs": 20000, "wall_s": 80, "runs_per_spec": 12, "run_wall_cap": 12, "proto": {}, "faults": True},
+        "quick": {"runs": 20000, "wall_s": 80, "runs_per_spec": 12, "run_wall_cap": 20, "proto": {}, "faults": True},
         "thorough": {"runs": 1000000, "wall_s": 1500, "runs_per_spec": 20, "run_wall_cap": 30, "proto": {"max_types": 7, "max_states": 4}, "faults": True},
     },
     "C19": {
         "sim": "protosim",
-        "quick": {"runs": 20000, "wall_s": 80, "runs_per_spec": 12, "run_wall_cap": 12, "proto": {}, "faults": True},
+        "quick": {"runs": 20000, "wall_s": 80, "runs_per_spec": 12, "run_wall_cap": 20, "proto": {}, "faults": True},
         "thorough": {"runs": 1000000, "wall_s": 1500, "runs_per_spec": 20, "run_wall_cap": 30, "proto": {"max_types": 7, "max_states": 4}, "faults": True},
     },
     "C01": {"sim": "searchsim", "quick": {"runs": 20000, "wall_s": 70, "runs_per_spec": 25, "run_wall_cap": 25, "spec": {}}, "thorough": {"runs": 1000000, "wall_s": 1500, "runs_per_spec": 30, "run_wall_cap": 40, "spec": {"max_h": 7, "max_r": 5, "body_rules": 4}}},
@@ -20,6 +20,7 @@ CHECKS = {
     "C16": {"sim": "searchsim", "quick": {"runs": 20000, "wall_s": 70, "runs_per_spec": 25, "run_wall_cap": 25, "spec": {"generators": True}, "gen_fault_rate": 0.08}, "thorough": {"runs": 1000000, "wall_s": 1500, "runs_per_spec": 30, "run_wall_cap": 40, "spec": {"max_h": 5, "max_r": 3}, "gen_fault_rate": 0.08}},
     "C09": {"sim": "treesim", "quick": {"runs": 60000, "wall_s": 45, "runs_per_spec": 1, "run_wall_cap": 10}, "thorough": {"runs": 3000000, "wall_s": 1200, "runs_per_spec": 1, "run_wall_cap": 10}},
     "C10": {"sim": "treesim", "quick": {"runs": 60000, "wall_s": 45, "runs_per_spec": 1, "run_wall_cap": 10}, "thorough": {"runs": 3000000, "wall_s": 1200, "runs_per_spec": 1, "run_wall_cap": 10}},
+    "C17": {"sim": "reprosim", "quick": {"runs": 4000, "wall_s": 70, "runs_per_spec": 12, "run_wall_cap": 60, "spec": {"max_h": 3, "max_r": 2, "body_rules": 2}}, "thorough": {"runs": 200000, "wall_s": 1500, "runs_per_spec": 16, "run_wall_cap": 90, "spec": {}}},
     "C18": {"sim": "isolationsim", "quick": {"runs": 4000, "wall_s": 70, "runs_per_spec": 10, "run_wall_cap": 60, "spec": {}}, "thorough": {"runs": 200000, "wall_s": 1500, "runs_per_spec": 12, "run_wall_cap": 90, "spec": {}}},
     "C12": {
         "sim": "parsesim",
@@ -36,6 +37,18 @@ CHECKS = {
 _NOTE = "Seeded sampling, not enumeration: a clean batch is evidence, not proof. Trusted: the harness's own AST/derivation checker/reference models, CPython, and (where stated) Fandango code on *fresh* objects as reference."
 
 MANIFEST_TEXT = {
+    "C17": {
+        "level": "Seeded exploration of (spec, settings, random seed) configurations, each executed in two sibling processes that differ only in perturbations the property says must not matter (clock origin/rate/jumps incl. backwards, heap layout, GC mode, order of identity-hashed sets via a seeded permutation, uuid env keys); ordered solutions, their trees and parse results must be identical; a difference is localised to one perturbation dimension by re-running with one dimension swapped.",
+        "design_ref": "DESIGN.md §6.5",
+        "note": _NOTE + " Quick tier: forked siblings of one warmed interpreter (same PYTHONHASHSEED).",
+        "technique": "deterministic simulation with environment fault injection (clock jumps, address-layout noise, GC schedule, set-order permutation) and a two-run differential oracle",
+    },
+    "C18": {
+        "level": "Seeded exploration of histories on other spec objects (create, fuzz with stagnation, parse, abandon generators, create IO-mode specs; B created before or after) followed by a fixed workload on B, compared with B alone in a sibling process; on a mismatch the leak channel is localised by restoring one process-global observable at a time.",
+        "design_ref": "DESIGN.md §6.6",
+        "note": _NOTE + " B is always a non-IO spec; both children are forks of the warmed worker with the known process globals reset.",
+        "technique": "deterministic simulation of multi-instance histories in one process with a differential oracle against an isolated sibling process and channel localisation",
+    },
     "C01": {
         "level": "Seeded exploration of search runs (generated grammar + constraints + computed repetitions + generators, swarm settings): every tree handed to the evaluator, every crossover child, every mutant, every emitted solution and the final population is checked by an independent derivation checker against the harness's own grammar AST. Exploration is the right level: the quantifier ranges over grammars, settings and operator histories.",
         "design_ref": "DESIGN.md §6.1",
@@ -111,6 +124,5 @@ NOT_APPLICABLE = {
     "C07": "A constraint verdict is a pure function of (tree, constraint program); deciding it needs a reference semantics over generated programs (translation validation / differential testing), not a simulator.",
     "C08": "AST equivalence of embedded Python with CPython's parser is translation validation over a program corpus; nothing to schedule or fault.",
     "C14": "Equivalence of the C++ and Python .fan front ends is differential testing over spec texts (single-shot pure functions); the C++ extension is git-ignored and absent from a fresh restore of /repo.",
-    "C15": "Print/re-read round trip of specs is a pure function of the grammar/constraint objects; no schedule, clock, fault or history.", "C17": "planned (ReproSim), not built yet",
-    "C18": "planned (IsolationSim), not built yet", 
+    "C15": "Print/re-read round trip of specs is a pure function of the grammar/constraint objects; no schedule, clock, fault or history.",
 }
